@@ -17,8 +17,9 @@ RULE = ('histories of 15-60 operations mixing every operation (transfers of all 
         'evaluations = BOOK evaluations (every returned container / well) + OBS evaluations (every observer call, '
         'incl. nested); non-trivial = an observer evaluated on contents holding >= 2 substances; distinct by '
         '(observer, unit, contents)')
-ASSUMPTIONS = BASE_ASSUMPTIONS + ['observer quanta: get_volume and get_concentration round to q in the output unit; plate '
-                                  'observers round to the configured display precision of the unit']
+ASSUMPTIONS = BASE_ASSUMPTIONS + ['observers keep what the storage units resolve (q storage units; the result of get_concentration is rounded to '
+                                  'q in the requested unit); plate observers round to the configured display precision of the unit, a plate total once; '
+                                  'a concentration per volume is not judged for a container whose contents are within 1e3 storage quanta of zero volume']
 
 
 def required_buckets(tier):
